@@ -11,3 +11,12 @@ package saslauthenticate
 //@ func (*Request).Required
 //@   modifies nothing
 //@   ensures result == (versions[protocol.SaslHandshake] == 0)
+
+//@ property C04 C18
+
+// Wire layout per version, from the Kafka protocol definition of SaslAuthenticate.
+//@ wire Request
+//@   layout v0..v1 AuthBytes bytes
+//@ wire Response
+//@   layout v0 ErrorCode int16, ErrorMessage string?, AuthBytes bytes
+//@   layout v1 ErrorCode int16, ErrorMessage string?, AuthBytes bytes, SessionLifetimeMs int64
